@@ -132,11 +132,35 @@ def _data(case_seed, n=40, d=3, classes=3, nan=False):
     return r, X, y
 
 
+# seed kinds: what is handed to `random_state=`.  A seed spec is [kind, base, modulus]; sub-call j of an entry gets the
+# value (base + 7919 j) % modulus wrapped as the kind says.  A plain int `rs` means ["int", rs, 2**32].
+KIND_MOD = {"int": 2 ** 32, "np.int64": 2 ** 32, "np.int32": 2 ** 31, "np.uint8": 256, "RandomState": 2 ** 32,
+            "Generator": 2 ** 32, "SeedSequence": 2 ** 32}
+KIND_WRAP = {
+    "int": int,
+    "np.int64": np.int64,
+    "np.int32": np.int32,
+    "np.uint8": np.uint8,
+    "RandomState": lambda v: np.random.RandomState(v),        # a NEW instance for every (sub-)call and every repetition
+    "Generator": lambda v: np.random.default_rng(v),
+    "SeedSequence": lambda v: np.random.SeedSequence(v),
+}
+CORE_KINDS = ("np.int64", "np.int32", "np.uint8", "RandomState")   # the unchanged library accepts these everywhere
+EQUAL_TO_INT = ("np.int64", "np.int32", "np.uint8", "RandomState")  # …and maps them to RandomState(value), like the int
+
+
+def _rs(rs, j=0):
+    if isinstance(rs, (int, np.integer)):
+        rs = ["int", int(rs), 2 ** 32]
+    kind, base, mod = rs
+    return KIND_WRAP[kind]((int(base) + 7919 * j) % int(mod))
+
+
 def _mech(make, values, n_calls=48, post=None):
     def fn(case_seed, rs):
         r = gen.SplitMix64(case_seed * 104729 + 7)
         vals = values(r)
-        m = make(rs, r)
+        m = make(_rs(rs), r)
         out = []
         for i in range(n_calls):
             v = vals[i % len(vals)]
@@ -160,9 +184,9 @@ def _vector_fn(case_seed, rs):
     r = gen.SplitMix64(case_seed * 31 + 1)
     w0 = np.array([r.uniform(-1, 1) for _ in range(3)])
     out = []
-    for _ in range(4):
+    for j in range(4):
         m = M.Vector(epsilon=1.0, function_sensitivity=0.25, data_sensitivity=1.0, dimension=3, alpha=1.0, n=10,
-                     random_state=rs)
+                     random_state=_rs(rs, j))
         f = m.randomise(lambda w, *a: (float(np.dot(w, w)), 2 * w))
         val, grad = f(w0)
         out += [val] + list(grad)
@@ -172,8 +196,15 @@ def _vector_fn(case_seed, rs):
 def _bneg_fn(case_seed, rs):
     r = gen.SplitMix64(case_seed + 99)
     g = r.uniform(0.1, 2.5)
-    rng = np.random.RandomState(rs)
+    rng = np.random.RandomState(_rs(rs if isinstance(rs, (int, np.integer)) else ["int", rs[1], rs[2]]))
     return [np.array([M.base.bernoulli_neg_exp(g, random_state=rng) for _ in range(64)])]
+
+
+def _bneg_direct_fn(case_seed, rs):
+    """the seed given DIRECTLY to the helper, one sub-seed per call"""
+    r = gen.SplitMix64(case_seed + 99)
+    g = r.uniform(0.1, 2.5)
+    return [np.array([M.base.bernoulli_neg_exp(g, random_state=_rs(rs, j)) for j in range(64)])]
 
 
 def _utils(r, n=6):
@@ -240,6 +271,7 @@ MECH_ENTRIES = {
     "Uniform": _mech(lambda rs, r: M.Uniform(delta=0.1, sensitivity=1, random_state=rs), lambda r: [r.uniform(-5, 5)]),
     "Vector": _vector_fn,
     "bernoulli_neg_exp": _bneg_fn,
+    "bernoulli_neg_exp:direct-seed": _bneg_direct_fn,
 }
 
 T = dp.tools
@@ -265,7 +297,7 @@ def _tool(f, nan=False, n=40, d=3):
         with warnings.catch_warnings():
             warnings.simplefilter("ignore")
             for j in range(REPS):
-                out = f(X[j * n:(j + 1) * n], rs + 7919 * j)
+                out = f(X[j * n:(j + 1) * n], _rs(rs, j))
                 outs += list(out) if isinstance(out, (tuple, list)) else [out]
         return outs
     return fn
@@ -338,7 +370,7 @@ def _model(f, classes=3, n=60):
         Xt = X[:7] * 0.9 + 0.05
         with warnings.catch_warnings():
             warnings.simplefilter("ignore")
-            return f(X, y, Xt, rs)
+            return f(X, y, Xt, _rs(rs))
     return fn
 
 
@@ -440,6 +472,69 @@ def run_in_fresh_interpreter(jobs, timeout=900, hashseed=4242):
     return json.loads(p.stdout.split("@@RESULT@@", 1)[1])
 
 
+# ------------------------------------------------------------------ seed kinds
+
+def seed_specs(r):
+    """the kinds tried for every entry point: [label, spec]"""
+    b = r.randint(1, 2 ** 31 - 2)
+    return [("np.int64", ["np.int64", b, KIND_MOD["np.int64"]]),
+            ("np.int32", ["np.int32", b, KIND_MOD["np.int32"]]),
+            ("np.uint8", ["np.uint8", b, KIND_MOD["np.uint8"]]),
+            ("RandomState", ["RandomState", b, KIND_MOD["RandomState"]]),
+            ("int:0", ["int", 0, 2 ** 32]),
+            ("int:2**32-1", ["int", 2 ** 32 - 1, 2 ** 32]),
+            ("Generator", ["Generator", b, KIND_MOD["Generator"]]),
+            ("SeedSequence", ["SeedSequence", b, KIND_MOD["SeedSequence"]])]
+
+
+def check_seed_kinds(ctx, r, jobs):
+    """every entry point x every kind of integer seed: an accepted kind must be reproducible (in-process here, in the
+    fresh interpreter through `jobs`) and, where the library maps it to RandomState(value), equal to the equal int"""
+    accepted = {}
+    for name in ENTRIES:
+        case_seed = r.randint(0, 10 ** 6)
+        for label, spec in seed_specs(r):
+            kind = spec[0]
+            try:
+                a = run_entry(name, case_seed, spec)
+            except (TypeError, ValueError) as e:
+                accepted.setdefault(label, [0, 0])[1] += 1
+                if kind in CORE_KINDS or kind == "int":
+                    ctx.disagree("seed-kinds", {"entry": name, "kind": label, "spec": spec}, "accepted",
+                                 f"{type(e).__name__}: {str(e)[:120]}", "the library rejects a seed kind it used to accept")
+                continue
+            accepted.setdefault(label, [0, 0])[0] += 1
+            data = {"kind": "entry", "entry": name, "case_seed": case_seed, "seed": spec, "seed_kind": label}
+            d = first_diff(a, run_entry(name, case_seed, spec))
+            ctx.case(("seed-kind", name, label))
+            if d:
+                ctx.violation(f"C15:{name}:repeat-in-process:{label}",
+                              f"{name} with random_state={_describe(spec)} (input case {case_seed}) called twice in one "
+                              f"process: output {d[0]} element {d[1]} is {d[2]!r} the first time and {d[3]!r} the second",
+                              dict(data, check="repeat", first_difference=d))
+                continue
+            if kind in EQUAL_TO_INT:
+                ref = run_entry(name, case_seed, ["int", spec[1], spec[2]])
+                d = first_diff(ref, a)
+                if d:
+                    ctx.violation(f"C15:{name}:seed-kind-differs-from-int:{label}",
+                                  f"{name} (input case {case_seed}): random_state={_describe(spec)} and the equal Python int "
+                                  f"{spec[1] % spec[2]} give different results (output {d[0]} element {d[1]}: {d[3]!r} vs {d[2]!r})",
+                                  dict(data, check="equal-int", first_difference=d))
+                    continue
+            jobs.append((name, case_seed, spec, digests(a)))
+    ctx.note("seed kinds accepted by the library (entries accepting / rejecting): " +
+             ", ".join(f"{k}: {v[0]}/{v[1]}" for k, v in accepted.items()))
+    ctx.count("seed_kind_comparisons", sum(v[0] for v in accepted.values()))
+
+
+def _describe(spec):
+    kind, base, mod = spec
+    v = int(base) % int(mod)
+    return {"int": f"{v}", "RandomState": f"np.random.RandomState({v})", "Generator": f"np.random.default_rng({v})",
+            "SeedSequence": f"np.random.SeedSequence({v})"}.get(kind, f"{kind}({v})")
+
+
 # ------------------------------------------------------------------ (a) (b) (c) on the catalogue
 
 def check_entries(ctx, n_cases, n_fresh):
@@ -476,6 +571,7 @@ def check_entries(ctx, n_cases, n_fresh):
             ctx.case((name, case_seed, rs1) if not same else None)
             if c < n_fresh:
                 jobs.append((name, case_seed, rs1, digests(a)))
+    check_seed_kinds(ctx, r, jobs)
     ctx.count("entry_points", len(ENTRIES))
     ctx.count("repeat_comparisons", len(ENTRIES) * n_cases)
     ctx.count("seed_pairs_with_different_noise", noisy)
@@ -485,8 +581,9 @@ def check_entries(ctx, n_cases, n_fresh):
         ctx.case(None)
         if child != dg:
             k = next((i for i, (x, y) in enumerate(zip(dg, child)) if x != y), -1)
-            ctx.violation(f"C15:{name}:fresh-process",
-                          f"{name} with random_state={rs1} (input case {case_seed}): output {k} computed in a fresh "
+            lab = "" if isinstance(rs1, int) else ":" + rs1[0]
+            ctx.violation(f"C15:{name}:fresh-process{lab}",
+                          f"{name} with random_state={rs1 if isinstance(rs1, int) else _describe(rs1)} (input case {case_seed}): output {k} computed in a fresh "
                           f"interpreter differs from the one computed in this process ({child[k] if k >= 0 else child} vs "
                           f"{dg[k] if k >= 0 else dg})",
                           {"kind": "entry", "check": "fresh", "entry": name, "case_seed": case_seed, "seed": rs1,
@@ -978,6 +1075,8 @@ def replay(ctx, data):
             return first_diff(a, run_entry(name, cs, rs)) is not None
         if d["check"] == "fresh":
             return run_in_fresh_interpreter([(name, cs, rs)])[0] != digests(a)
+        if d["check"] == "equal-int":
+            return first_diff(a, run_entry(name, cs, ["int", rs[1], rs[2]])) is not None
         return all(first_diff(a, run_entry(name, cs, s)) is None for s in (d["seed2"], d["seed2"] + 17, d["seed2"] + 18))
     if kind in ("forest-njobs", "forest-order"):
         check_forest_njobs(c, d["case"])
